@@ -18,6 +18,9 @@ pub struct GenCfg {
     pub real_conds: f64,
     pub loggers: bool,
     pub requires: bool,
+    /// leaves write values from a small range (value histories with repeats and small moves)
+    /// and occasionally set / clear the best-individual memory
+    pub small_values: bool,
 }
 
 pub struct ProgGen<'a> {
@@ -39,6 +42,22 @@ impl<'a> ProgGen<'a> {
     }
 
     fn ops(&mut self, max: usize) -> Vec<Op> {
+        if self.cfg.small_values {
+            let n = self.g.below(max + 1);
+            return (0..n)
+                .map(|_| {
+                    let t = self.g.below(self.cfg.ntypes as usize) as u8;
+                    let v = self.g.below(9) as u32;
+                    match self.g.below(10) {
+                        0..=3 => Op::Insert(t, v),
+                        4..=6 => Op::Set(t, v),
+                        7 => Op::Remove(t),
+                        8 => Op::SetBest(Some(*self.g.pick(&[0.0, 0.25, 0.5, 1.0, 2.0, 3.0, 7.5]))),
+                        _ => Op::SetBest(if self.g.chance(0.5) { None } else { Some(f64::INFINITY) }),
+                    }
+                })
+                .collect();
+        }
         let n = self.g.below(max + 1);
         let mut og = OpGen { g: self.g, next_val: self.next_val, ntypes: self.cfg.ntypes };
         let v = (0..n).map(|_| og.op(false, self.cfg.closure_depth, self.cfg.panicking_ops)).collect();
